@@ -270,4 +270,39 @@ Theorem C02_search_phase2_events_respect_invariants :
           (sst_log (Ev_Phase 2) (sst_log (Ev_Phase 1) (wrap_phase1 W infos1 lines))))).
 Proof. exact phase2_events_ok. Qed.
 
+(* END TO END, on the composed model Model/Format.v: format_model (the stage models folded over the stage list GENERATED from make_formatter,
+   from the input bytes to the output bytes; tied to the implementation byte for byte and stage by stage by unit e2e). One final token per
+   lexed token, in order, in the same lexical class, its text the documented normalisation of the original; and re-scanning the output
+   gives those tokens back under the per-gap separator condition (the missing link - that spacing and search leave a separator where one
+   is needed - is false for the 23 listed gluing pairs and decided per trace by unit relex). *)
+From PasfmtVerif Require Import Model.Format Proofs.FormatProofs Proofs.FormatTotalProofs Proofs.FormatWrapProofs Proofs.FormatIgnoredProofs Proofs.FormatVerbatimProofs Proofs.FormatLayoutProofs Proofs.FormatRescanProofs Proofs.FormatContentProofs Proofs.FormatMLProofs Proofs.FormatContentMLProofs Proofs.FormatEofProofs.
+Theorem C02_format_tokens_kept :
+  forall (alnum : bytes -> bool) (cfg : fconfig) (s out : bytes),
+  format_model alnum cfg s = inl out ->
+  exists segs : list seg,
+    lex_segments s = Some segs /\
+    out = fm_out alnum cfg segs /\
+    length (fm_final alnum cfg segs) = length segs /\
+    (forall (i : nat) (sg : seg),
+     nth_error segs i = Some sg ->
+     exists (tok0 : token) (m : bool) (tokf : token) (ff : fmt),
+       nth_error (fm_toks segs) i = Some tok0 /\
+       t_content tok0 = seg_content sg /\
+       nth_error (fm_marks segs) i = Some m /\
+       nth_error (fm_final alnum cfg segs) i = Some (tokf, ff) /\
+       t_ty tokf = t_ty tok0 /\
+       ParserGrammarTypesProofs.tt_class_of (t_ty tokf) =
+       ParserGrammarTypesProofs.lex_class_of (seg_ty sg) /\
+       WrapApplyProofs.ml_rewrites (cfg_rs cfg) (norm_content alnum tok0 m) (t_content tokf)).
+Proof. exact format_tokens_kept. Qed.
+
+Theorem C02_format_rescan :
+  forall (alnum : bytes -> bool) (cfg : fconfig) (s out : bytes),
+  format_model alnum cfg s = inl out ->
+  exists segs : list seg,
+    lex_segments s = Some segs /\
+    (LexerRelayoutProofs.relayout init_state (format_osegs alnum cfg segs) ->
+     lex out = Some (map seg_lens (format_osegs alnum cfg segs))).
+Proof. exact format_rescan. Qed.
+
 
